@@ -239,7 +239,7 @@ def encode_case(cfg, ops, gaprule):
         elif op[0] == "capi":
             out += [4, op[1], op[2], len(op[3])] + [x for gd in zip(op[3], op[4]) for x in gd]
         elif op[0] == "session":
-            out += [5]
+            out += [5, op[1]]
     return out
 
 
@@ -303,6 +303,8 @@ def run_impl(cfg, ops, chdir, hook=None):
                 w.close()
             elif op[0] == "session":
                 w.close()
+                cfg = Cfg(cfg.n, cfg.d, cfg.sc, cfg.fc, op[1], cfg.cont, cfg.comp, cfg.cksum, cfg.kind, cfg.size,
+                          cfg.order, cfg.is_complex, cfg.nsub)
                 w = make_writer(cfg, chdir)
         except Exception as e:  # noqa
             cls, ret = errclass(e), 0
@@ -363,7 +365,10 @@ def compare_files(cfg, model_files, impl_files):
 def abs_of_history(cfg, ops, reports):
     """index (absolute) -> tag for every sample of every ACCEPTED call (cls == 0)"""
     m = {}
+    start = cfg.start
     for op, rep in zip(ops, reports):
+        if op[0] == "session":
+            start = op[1]
         if rep[0] != 0:
             continue
         if op[0] == "w":
@@ -371,13 +376,13 @@ def abs_of_history(cfg, ops, reports):
             if ns is None:
                 ns = rep[2] - op[2] if op[2] > 0 else rep[2]
             for j in range(op[2]):
-                m[cfg.start + ns + j] = op[3] + j
+                m[start + ns + j] = op[3] + j
         elif op[0] == "b":
             G, D, total = op[3], op[4], op[1]
             for bi in range(len(G)):
                 end = D[bi + 1] if bi + 1 < len(D) else total
                 for j in range(end - D[bi]):
-                    m[cfg.start + G[bi] + j] = op[2] + D[bi] + j
+                    m[start + G[bi] + j] = op[2] + D[bi] + j
     return m
 
 
@@ -421,9 +426,6 @@ def run_histories(res, nhist, oracle, invalid_rate=0.0, blocks=True, modes=None,
     for i in range(nhist):
         cfg = gen_cfg(rng, small=small, modes=modes)
         ops = gen_ops(rng, cfg, rng.randrange(nops[0], nops[1] + 1), invalid_rate=invalid_rate, blocks=blocks)
-        if sessions and rng.random() < 0.7:
-            k = rng.randrange(1, len(ops))
-            ops = ops[:k] + [("session",)] + ops[k:]
         hs.append((cfg, ops))
     model_out = common.run_model("writer", [encode_case(cfg, ops, gaprule) for cfg, ops in hs])
     ndis = 0
